@@ -24,6 +24,7 @@ ASSUMPTIONS = [
 SIGMA_Q = ["a", "b", "1", "0", "+", "-", "*", "/", ":", "**", "%in%", "~", "|", "(", ")", "."]
 SIGMA_T = SIGMA_Q + ["c", "2", "2.5", "^"]
 SIGMA_K = ["a", "`x y`", "log(a)", "{a+b}", "`p:q`", "`0`", "`1`", "0", "1", "+", "-", ":", "*", "(", ")", "~", "."]
+SIGMA_K4 = ["a", "`x y`", "{a+b}", "`1`", "`0`", "1", "0", "+", "-", ":", "(", ")", "~"]
 AVAILS = [["a", "b", "c"], [], ["a"], ["c", "a", "b"]]
 
 PINNED = {
@@ -100,10 +101,10 @@ def compare(col, tokens, s, icpt, flags, avail, tag):
     return ref, got
 
 
-def configs(c, tokens):
+def configs(c, tokens, all_flags=True):
     icpt = not c.flag()
     flags = FLAG_SETS[0]
-    if "~" in tokens or "|" in tokens:
+    if all_flags and ("~" in tokens or "|" in tokens):
         flags = c.pick(FLAG_SETS)
     avail = AVAILS[0]
     if "." in tokens:
@@ -117,7 +118,7 @@ def drv_tokens(c, ctx, col):
         tokens = [ctx["first"]] + c.seq(sigma, L - 1, L - 1)
     else:
         tokens = c.seq(sigma, L, ctx.get("Lmin", 0))
-    icpt, flags, avail = configs(c, tokens)
+    icpt, flags, avail = configs(c, tokens, ctx.get("all_flags", True))
     s = " ".join(tokens)
     compare(col, tokens, s, icpt, flags, avail, "tokens")
     col.sample({"formula": s, "include_intercept": icpt, "flags": list(flags), "available": avail})
@@ -464,11 +465,13 @@ def subchecks(tier, seed):
         subs.append(Sub("tokens", drv_tokens, {"sigma": SIGMA_Q, "L": 4}, shard_depth=3,
                         bounds={"alphabet": SIGMA_Q, "max_tokens": 4}))
         first = SIGMA_T[seed % len(SIGMA_T)]
-        subs.append(Sub("tokens-seed-slice", drv_tokens, {"sigma": SIGMA_Q, "L": 5, "Lmin": 5, "first": first}, shard_depth=3,
+        subs.append(Sub("tokens-seed-slice", drv_tokens, {"sigma": SIGMA_Q, "L": 5, "Lmin": 5, "first": first, "all_flags": False}, shard_depth=3,
                         bounds={"alphabet": SIGMA_Q, "tokens": 5, "first_token": first,
                                 "note": "VERIF_SEED-selected exhaustive slice of the thorough scope"}))
-        subs.append(Sub("tokens-operand-kinds", drv_tokens, {"sigma": SIGMA_K, "L": 4}, shard_depth=3,
-                        bounds={"alphabet": SIGMA_K, "max_tokens": 4}))
+        subs.append(Sub("tokens-operand-kinds", drv_tokens, {"sigma": SIGMA_K, "L": 3}, shard_depth=2,
+                        bounds={"alphabet": SIGMA_K, "max_tokens": 3}))
+        subs.append(Sub("tokens-operand-kinds-4", drv_tokens, {"sigma": SIGMA_K4, "L": 4, "Lmin": 4, "all_flags": False}, shard_depth=3,
+                        bounds={"alphabet": SIGMA_K4, "tokens": 4}))
         subs.append(Sub("parser-states", drv_parser_states, {"sigma": SIGMA_Q, "L": 3}, shard_depth=2,
                         bounds={"alphabet": SIGMA_Q, "max_tokens": 3, "observed": "operator stack symbols + output queue length after every token"}))
         subs.append(Sub("sentences", drv_sentences, {"k": 2, "kmin": 0, "leaves": ["a", "b", "c", "1", "0"], "powers": ["2"]},
